@@ -892,7 +892,11 @@ func (p *Prog) fieldNamesOnce() {
 					}
 				}
 			}
-			walk(tn.Type(), pk.Types.Name()+"."+tn.Name(), 0)
+			tname := tn.Name()
+			if old, ok := canon.CanonT[tn]; ok {
+				tname = old
+			}
+			walk(tn.Type(), pk.Types.Name()+"."+tname, 0)
 		}
 	}
 }
